@@ -143,7 +143,7 @@ def run(case, ctx):
     D = case["D"]
     if case.get("kind") == "model":
         return run_model(case, ctx, rng)
-    cfg = mlgen.gen_layer_cfg(rng, D, allow_stride=True)
+    cfg = mlgen.gen_layer_cfg(rng, D, allow_stride=True, equal_channels=(case["i"] % 3 == 1))
     key = {k: cfg[k] for k in ("D", "M", "in_sig", "out_sig", "drop", "bias", "padding", "lhs", "rhs", "stride", "torus", "sp")}
     viols, evals = [], 0
     _mon.take()
@@ -166,7 +166,7 @@ def run(case, ctx):
         viols.append(viol(f"layer-exception-{type(e).__name__}", f"{type(e).__name__}: {str(e)[:300]}; {key}; {traceback.format_exc()[-400:]}"))
     viols += _mon.take()
     return result(key, viols[:3], contrib >= 2, evals=evals, obs={"layer_calls_checked": evals},
-                  hist={"D": D, "M": cfg["M"], "bias": str(cfg["bias"]), "pad_kind": cfg["pad_kind"] + ("+lhs" if cfg["lhs"] else ""), "torus_kind": cfg["torus_kind"], "partial_bank": cfg["drop"] is not None, "stride": str(cfg["stride"] == 1)},
+                  hist={"D": D, "M": cfg["M"], "bias": str(cfg["bias"]), "pad_kind": cfg["pad_kind"] + ("+lhs" if cfg["lhs"] else ""), "torus_kind": cfg["torus_kind"], "partial_bank": cfg["drop"] is not None, "stride": str(cfg["stride"] == 1), "channels": "equal" if case["i"] % 3 == 1 else "distinct"},
                   sample={"cfg": key})
 
 
